@@ -602,3 +602,75 @@ M("prune-label-unconditional", ["C17"], SUP,
 M("learn-np-copy", ["~C17"], SUP,
   "                            X_val[err, :].copy(),\n                            X_train[j, :].copy(),\n",
   "                            np.copy(X_val[err, :]),\n                            np.copy(X_train[j, :]),\n")
+
+# ---------------------------------------------------------------------------
+# stream utilities (C18)
+# ---------------------------------------------------------------------------
+M("split-second-permutation", ["C18"], SPLIT,
+  "    X_1, X_2 = X[idx[:halt], :], X[idx[halt:], :]\n    Y_1, Y_2 = Y[idx[:halt]], Y[idx[halt:]]",
+  "    X_1, X_2 = X[idx[:halt], :], X[idx[halt:], :]\n    idx = np.random.permutation(X.shape[0])\n    Y_1, Y_2 = Y[idx[:halt]], Y[idx[halt:]]")
+M("split-overlap", ["C18"], SPLIT,
+  "    I_1, I_2 = idx[:halt], idx[halt:]", "    I_1, I_2 = idx[:halt], idx[halt - 1:]")
+M("split-seed-after-draw", ["C18"], SPLIT,
+  "    np.random.seed(random_state)\n\n    if X.shape[0] != Y.shape[0]:\n        raise e.SizeError(\"`X` and `Y` should have the same amount of samples\")\n\n    idx = np.random.permutation(X.shape[0])\n    halt = int(len(X) * percentage)\n\n    X_1, X_2 = X[idx[:halt], :], X[idx[halt:], :]",
+  "    if X.shape[0] != Y.shape[0]:\n        raise e.SizeError(\"`X` and `Y` should have the same amount of samples\")\n\n    idx = np.random.permutation(X.shape[0])\n    np.random.seed(random_state)\n    halt = int(len(X) * percentage)\n\n    X_1, X_2 = X[idx[:halt], :], X[idx[halt:], :]")
+M("split-halt-rounds-up", ["C18"], SPLIT,
+  "    halt = int(len(X) * percentage)\n\n    X_1, X_2 = X[idx[:halt], :], X[idx[halt:], :]", "    halt = int(len(X) * percentage + 0.5)\n\n    X_1, X_2 = X[idx[:halt], :], X[idx[halt:], :]")
+M("split-labels-unpermuted", ["C18"], SPLIT,
+  "    Y_1, Y_2 = Y[idx[:halt]], Y[idx[halt:]]", "    Y_1, Y_2 = Y[:halt], Y[halt:]")
+M("split-index-sorted", ["C18"], SPLIT, "    I_1, I_2 = idx[:halt], idx[halt:]\n    X_1, X_2 = X[I_1, :], X[I_2, :]",
+  "    I_1, I_2 = idx[:halt], idx[halt:]\n    X_1, X_2 = X[np.sort(I_1), :], X[I_2, :]")
+M("merge-labels-reversed", ["C18"], SPLIT, "    Y = np.hstack((Y_1, Y_2))", "    Y = np.hstack((Y_2, Y_1))")
+M("parser-features-from-col1", ["C18"], PARSE, "        X = data[:, 2:]", "        X = data[:, 1:]")
+M("parser-check-dropped", ["C18"], PARSE, "        if len(counts) != (np.max(Y) + 1):", "        if len(counts) > (np.max(Y) + 1):")
+M("conv-csv-label-not-shifted", ["C18"], CONV,
+  "            samples.append((data[0], data[1] - 1, *data[2:]))\n\n    if not output_file:\n        output_file = opf_path.split(\".\")[0] + \".csv\"",
+  "            samples.append((data[0], data[1], *data[2:]))\n\n    if not output_file:\n        output_file = opf_path.split(\".\")[0] + \".csv\"")
+M("conv-json-features-skip-one", ["C18"], CONV, "\"features\": list(data[2:])}", "\"features\": list(data[3:])}")
+M("conv-txt-features-from-header1", ["C18"], CONV,
+  "        n_samples = header_data[0]\n        n_features = header_data[2]\n\n        file_format = \"<ii\"\n        for _ in range(n_features):\n            file_format += \"f\"\n\n        data_size = struct.calcsize(file_format)\n\n        samples = []\n        for _ in range(n_samples):\n            data = struct.unpack(file_format, f.read(data_size))\n\n            # Note that we subtract 1 from `labels` column\n            samples.append((data[0], data[1] - 1, *data[2:]))\n\n    if not output_file:\n        output_file = opf_path.split(\".\")[0] + \".txt\"",
+  "        n_samples = header_data[0]\n        n_features = header_data[1]\n\n        file_format = \"<ii\"\n        for _ in range(n_features):\n            file_format += \"f\"\n\n        data_size = struct.calcsize(file_format)\n\n        samples = []\n        for _ in range(n_samples):\n            data = struct.unpack(file_format, f.read(data_size))\n\n            # Note that we subtract 1 from `labels` column\n            samples.append((data[0], data[1] - 1, *data[2:]))\n\n    if not output_file:\n        output_file = opf_path.split(\".\")[0] + \".txt\"")
+M("conv-txt-lossy-fmt", ["C18"], CONV, "    np.savetxt(output_file, samples, delimiter=\" \")", "    np.savetxt(output_file, samples, delimiter=\" \", fmt=\"%.4f\")")
+M("loader-json-label-id-swapped", ["C18"], LOAD, "        meta = np.asarray([d[\"id\"], d[\"label\"]])", "        meta = np.asarray([d[\"label\"], d[\"id\"]])")
+M("loader-txt-tab", ["C18"], LOAD, "        txt = np.loadtxt(txt_path, delimiter=\" \")", "        txt = np.loadtxt(txt_path, delimiter=\"\\t\")")
+M("subgraph-load-txt-as-csv", ["C18"], SUBG, "        elif extension == \"txt\":\n            data = loader.load_txt(file_path)", "        elif extension == \"txt\":\n            data = loader.load_csv(file_path)")
+M("split-len-y", ["~C18"], SPLIT, "    idx = np.random.permutation(X.shape[0])\n    halt = int(len(X) * percentage)\n\n    I_1",
+  "    idx = np.random.permutation(len(X))\n    halt = int(len(X) * percentage)\n\n    I_1")
+
+# ---------------------------------------------------------------------------
+# save / load (C19)
+# ---------------------------------------------------------------------------
+M("save-dumps-subgraph-only", ["C19"], OPFC, "            pickle.dump(self, dest_file)", "            pickle.dump(self.subgraph, dest_file)")
+M("save-append-mode", ["C19"], OPFC, "        with open(file_name, \"wb\") as dest_file:", "        with open(file_name, \"ab\") as dest_file:")
+M("save-resets-model", ["C19"], OPFC, "        with open(file_name, \"wb\") as dest_file:\n            pickle.dump(self, dest_file)",
+  "        with open(file_name, \"wb\") as dest_file:\n            pickle.dump(self, dest_file)\n        self.subgraph.reset()")
+M("load-only-subgraph", ["C19"], OPFC, "            self.__dict__.update(opf.__dict__)", "            self.subgraph = opf.subgraph")
+M("load-keeps-own-distance", ["C19"], OPFC, "            self.__dict__.update(opf.__dict__)",
+  "            state = {k: v for k, v in opf.__dict__.items() if k != \"_distance_fn\"}\n            self.__dict__.update(state)")
+M("load-rebinds-metric-from-self", ["C19"], OPFC, "            self.__dict__.update(opf.__dict__)",
+  "            opf.distance_fn = d.DISTANCES[self.distance]\n            self.__dict__.update(opf.__dict__)")
+M("opf-getstate-drops-distances", ["C19"], OPFC, "    def fit(self, X: np.array, Y: np.array) -> None:",
+  "    def __getstate__(self):\n        state = dict(self.__dict__)\n        state[\"_pre_distances\"] = None\n        return state\n\n    def fit(self, X: np.array, Y: np.array) -> None:")
+M("decorator-wraps-removed", ["C19"], DEC, "    @wraps(f)\n    def _avoid_zero_division", "    def _avoid_zero_division")
+M("knnsubgraph-class-level-best-k", ["C19"], KSUB, "class KNNSubgraph(Subgraph):\n    \"\"\"A KNNSubgraph is used to implement a k-nearest neightbours subgraph.\"\"\"\n",
+  "class KNNSubgraph(Subgraph):\n    \"\"\"A KNNSubgraph is used to implement a k-nearest neightbours subgraph.\"\"\"\n\n    shared_constant = 0.0\n")
+M("opf-lambda-distance", ["C19"], OPFC, "        self.distance_fn = d.DISTANCES[distance]", "        self.distance_fn = d.DISTANCES[distance]\n        self._scale = lambda v: v")
+M("registry-lambda-entry", ["C19", "C06"], DIST, "    \"manhattan\": manhattan_distance,", "    \"manhattan\": lambda x, y: manhattan_distance(x, y),")
+
+# ---------------------------------------------------------------------------
+# measures (C20)
+# ---------------------------------------------------------------------------
+M("acc-swapped-columns", ["C20"], GEN, "            errors[pred][0] += 1\n            errors[label][1] += 1", "            errors[label][0] += 1\n            errors[pred][1] += 1")
+M("acc-denominators-swapped", ["C20"], GEN, "    errors[:, 1] /= counts\n    errors[:, 0] /= np.nansum(counts) - counts", "    errors[:, 0] /= counts\n    errors[:, 1] /= np.nansum(counts) - counts")
+M("acc-divide-by-k", ["C20"], GEN, "    accuracy = 1 - (np.sum(errors) / (2 * n_class))", "    accuracy = 1 - (np.sum(errors) / n_class)")
+M("acc-counts-from-preds", ["C20"], GEN, "    counts = np.bincount(labels)", "    counts = np.bincount(preds)")
+M("acc-counts-all-pairs", ["C20"], GEN, "        if label != pred:\n            errors[pred][0] += 1\n            errors[label][1] += 1", "        if True:\n            errors[pred][0] += 1\n            errors[label][1] += 1")
+M("cm-transposed", ["C20"], GEN, "        c_matrix[label][pred] += 1", "        c_matrix[pred][label] += 1")
+M("cm-classes-from-preds", ["C20"], GEN,
+  "    n_class = np.max(labels) + 1\n\n    c_matrix = np.zeros((n_class, n_class))", "    n_class = np.max(preds) + 1\n\n    c_matrix = np.zeros((n_class, n_class))")
+M("perlabel-counts-pred-errors", ["C20"], GEN, "        if label != pred:\n            errors[label] += 1", "        if label != pred:\n            errors[pred] += 1")
+M("purity-axis1", ["C20"], GEN, "    _purity = np.sum(np.max(c_matrix, axis=0)) / len(labels)", "    _purity = np.sum(np.max(c_matrix, axis=1)) / len(labels)")
+M("purity-swapped-args", ["C20"], GEN, "    c_matrix = confusion_matrix(labels, preds)\n    _purity", "    c_matrix = confusion_matrix(preds, labels)\n    _purity")
+M("normalize-global-std", ["C20"], GEN, "    std = np.std(array, axis=0)", "    std = np.std(array)")
+M("normalize-minmax", ["C20"], GEN, "    norm_array = (array - mean) / std", "    norm_array = (array - mean) / (std + 1)")
+M("acc-len-for-total", ["~C20"], GEN, "    errors[:, 0] /= np.nansum(counts) - counts", "    errors[:, 0] /= len(labels) - counts")
